@@ -741,7 +741,7 @@ type c04Witness struct {
 func init() {
 	core.Register(&core.Check{
 		ID:   "C04",
-		Rule: "base documents: hand-written conforming documents (2 variants + documents derived by deleting optional subtrees) using every container (components of 9 kinds, path items, operations, parameters of all locations/styles incl. content-defined, request bodies, responses, headers, media types, encodings, callbacks, links, nested/recursive schemas, 5 security scheme types, servers with variables); each must be accepted under all 9 option sets (option values built once and reused, alone and combined); plus the same document split into a root and a library file holding its components, mutated inside the library components the root reaches. Mutants: for each of ~65 rules (missing required field per kind, illegal in/style/explode, schema+content both/neither, path-parameter rules, duplicates, example/default violating the schema, example+examples, unknown type/format, array without items, readOnly+writeOnly, uncompilable pattern, ill-formed security schemes, server/variable rules, link/example exclusivity, non-extension extra field per kind, unresolved reference, malformed component name, duplicate operationId, conflicting templates, extensions next to $ref) x every location of the subject's kind found by a kind-aware walker, exactly one violation is introduced; each mutant must be rejected under every option set except the one naming its rule. Distinct = (rule, location class, option set, base); non-trivial = the mutation applied.",
+		Rule: "base documents: hand-written conforming documents (2 variants + documents derived by deleting optional subtrees) using every container (components of 9 kinds, path items, operations, parameters of all locations/styles incl. content-defined, request bodies, responses, headers, media types, encodings, callbacks, links, nested/recursive schemas, 5 security scheme types, servers with variables); each must be accepted under all 9 option sets (option values built once and reused, alone and combined); plus the same document split into a root and a library file holding its components, mutated inside the library components the root reaches. Mutants: for each of ~65 rules (missing required field per kind, illegal in/style/explode, schema+content both/neither, path-parameter rules, duplicates, example/default violating the schema, example+examples, unknown type/format, array without items, readOnly+writeOnly, uncompilable pattern, ill-formed security schemes, server/variable rules, link/example exclusivity, non-extension extra field per kind, unresolved reference, malformed component name, duplicate operationId, conflicting templates, extensions next to $ref) x every location of the subject's kind found by a kind-aware walker, exactly one violation is introduced; each mutant must be rejected under every option set except the one naming its rule. Distinct = (rule, location class, option set, base); non-trivial = the mutation applied. A tenth option set, the caller's own pattern engine taking every pattern (SetRegexCompiler), runs first in every sequence; the base document carries a response header whose example leaves out a required write-only member.",
 		Assumptions: []string{
 			"the base documents conform by construction (they are also required to be accepted, which the check asserts)",
 			"a mutant rejected already by the loader counts as rejected",
